@@ -9,7 +9,9 @@ import (
 	"crypto/sha256"
 	"fmt"
 	"sort"
+	"strings"
 	"sync"
+	"time"
 
 	"github.com/MixinNetwork/mixin/common"
 	"github.com/MixinNetwork/mixin/crypto"
@@ -191,3 +193,99 @@ func newFakeStore() *fakeStore {
 }
 
 func addrPtr(a common.Address) *common.Address { return &a }
+
+// ---- who validates and when (C25/C29: the time an operation snapshot is validated at)
+
+// clkSpec: `clk <own> <ts0> <clock> <op …>` runs the operation as validated by a node whose wall
+// clock shows `clock`; own = the snapshot is that node's own, ts0 = it has no timestamp yet.
+type clkSpec struct {
+	on, own, ts0 bool
+	clock        uint64
+}
+
+func parseClk(t []string) (clkSpec, []string) {
+	if len(t) > 4 && t[0] == "clk" {
+		return clkSpec{on: true, own: t[1] == "1", ts0: t[2] == "1", clock: u64(t[3])}, t[4:]
+	}
+	return clkSpec{}, t
+}
+
+// the time the validators are specified to use: the snapshot's timestamp, except for the
+// proposer's own snapshot that has none yet
+func (c clkSpec) eff(ts uint64) uint64 {
+	if c.on && c.own && c.ts0 {
+		return c.clock
+	}
+	return c.snapTs(ts)
+}
+
+func (c clkSpec) snapTs(ts uint64) uint64 {
+	if c.on && c.ts0 {
+		return 0
+	}
+	return ts
+}
+
+func (c clkSpec) prefix() string {
+	if !c.on {
+		return ""
+	}
+	return fmt.Sprintf("clk %d %d %d ", b2i(c.own), b2i(c.ts0), c.clock)
+}
+
+// the clock the kernel reads while f runs
+func (c clkSpec) now() uint64 {
+	if c.on {
+		return c.clock
+	}
+	return uint64(time.Now().UnixNano())
+}
+
+// withClock runs f with the kernel clock mocked to target (when on)
+func withClock(on bool, target uint64, f func()) {
+	if !on {
+		f()
+		return
+	}
+	kernel.TestMockReset()
+	kernel.TestMockDiff(time.Duration(int64(target) - time.Now().UnixNano()))
+	defer kernel.TestMockReset()
+	f()
+}
+
+// another clock in a different epoch day and hour window, later than c.clock
+func (c clkSpec) otherClock() uint64 { return c.clock + 29*3600000000000 }
+
+// clkWrap turns about a third of the validator ops into `clk` ops: the snapshot is the validating
+// node's own or not, has a timestamp or not, and the local clock is in another epoch day / hour
+// window than the snapshot's timestamp (tsPos: op name -> index of its timestamp token).
+func clkWrap(r *Rand, lines []string, tsPos map[string]int) []string {
+	const hour = uint64(3600000000000)
+	for i, l := range lines {
+		t := strings.Fields(l)
+		pos, ok := tsPos[t[0]]
+		if !ok || !r.Chance(1, 3) {
+			continue
+		}
+		ts := u64(t[pos])
+		if ts > 1<<62 || ts < 1<<59 {
+			continue
+		}
+		clock := ts + Pick(r, []uint64{5 * hour, 29 * hour, 79 * hour, 11 * hour, 24 * hour, hour / 6, 400 * 24 * hour})
+		if r.Chance(1, 6) {
+			clock = ts - Pick(r, []uint64{5 * hour, 29 * hour, hour / 6})
+		}
+		own, ts0 := r.Chance(2, 3), r.Chance(1, 4)
+		if own && ts0 {
+			// the proposer validating before announcing: the clock is the time. The mocked clock
+			// runs on (microseconds pass before the validator reads it): keep it off the
+			// nanosecond-exact window edges the timestamps are generated on.
+			if r.Chance(2, 3) {
+				clock = ts
+			}
+			clock += 1000000000 + r.U64()%1000000000000
+		}
+		lines[i] = fmt.Sprintf("clk %d %d %d %s", b2i(own), b2i(ts0), clock, l)
+	}
+	return lines
+}
